@@ -6,8 +6,9 @@
    records are the follow-up calls, "Done" carries the totals of the execution.
 
    Leg B (property monitors, accumulate in `fails`):
-     crash@<site> / throw@<site>   the call did not return: sanitizer report, signal, abort or an
-                                   exception through the C API (site = innermost library frame)
+     crash@<site>[/<guard>]        the call did not return: sanitizer report, signal, abort or (throw@) an exception
+     throw@<site>[/<guard>]        through the C API; site = innermost library frame; /<guard> = the model's name of
+                                   the missing check when spec/Loader.tla predicts exactly this crash for these bytes
      hog@<where>                   time or memory not proportional to the input: the call was stopped by the CPU /
                                    resident-set limit of the harness, or it returned after > 5 s CPU or with > 512 MiB
                                    resident (where = the loop/allocation site the model names for these bytes, else the call)
@@ -47,28 +48,32 @@ Inp(ev) == [head |-> ev.head, unit |-> ev.unit, times |-> ev.times, tail |-> ev.
 (* the monitors every executed command is subject to *)
 Died(ev) == ev.st \in {"crash", "throw", "timeout", "rss"}
 Detail(ev) == IF Died(ev) THEN ToString(<<ev.kind, ev.file, ev.line, IF Has(ev, "what") THEN ev.what ELSE "">>) ELSE ""
-StFails(ev, hs, md) ==
-  IF ev.st = "crash" THEN {Fail("crash@" \o ev.site, ev, Detail(ev) \o md)}
-  ELSE IF ev.st = "throw" THEN {Fail("throw@" \o ev.site, ev, Detail(ev) \o md)}
+(* labels: the observed site, refined by the model's name of the missing guard when the model explains exactly this crash *)
+StFails(ev, pred, md) ==
+  LET hs == IF pred.res = "resource" THEN pred.site \o "/" \o pred.why ELSE ev.e
+      ex == IF pred.why # "" /\ pred.res \in {"crash", "unk"} /\ (pred.site = ev.site \/ pred.site = "?") THEN "/" \o pred.why ELSE "" IN
+  IF ev.st = "crash" THEN {Fail("crash@" \o ev.site \o ex, ev, Detail(ev) \o md)}
+  ELSE IF ev.st = "throw" THEN {Fail("throw@" \o ev.site \o ex, ev, Detail(ev) \o md)}
   ELSE IF ev.st = "timeout" THEN {Fail("hog@" \o hs, ev, "cpu limit " \o Detail(ev) \o " in " \o ev.site \o md)}
   ELSE IF ev.st = "rss" THEN {Fail("hog@" \o hs, ev, "resident-set limit " \o Detail(ev) \o " in " \o ev.site \o md)}
   ELSE {}
-CostFails(ev, hs, md) ==
+CostFails(ev, pred, md) ==
+  LET hs == IF pred.res = "resource" THEN pred.site \o "/" \o pred.why ELSE ev.e IN
   (IF ev.st = "ok" /\ ev.cpu > CpuCapMs THEN {Fail("hog@" \o hs, ev, ToString(ev.cpu) \o " ms cpu" \o md)} ELSE {})
   \cup (IF ev.st = "ok" /\ ev.hwm > RssCapKiB /\ ~cur.over THEN {Fail("hog@" \o hs, ev, ToString(ev.hwm) \o " KiB resident" \o md)} ELSE {})
 Over(ev) == cur.over \/ (ev.st = "ok" /\ ev.hwm > RssCapKiB)     \* hwm is a high-water mark: reported once per execution
 
 (* observed outcome class of a Load record, comparable with the model's *)
 Observed(ev) ==
-  IF ev.st \in {"crash", "throw"} THEN [res |-> "crash", site |-> ev.site]
-  ELSE IF ev.st \in {"timeout", "rss"} \/ (ev.st = "ok" /\ (ev.cpu > CpuCapMs \/ ev.hwm > RssCapKiB)) THEN [res |-> "resource", site |-> ""]
-  ELSE IF ev.r = 0 THEN [res |-> "acc", site |-> ""]
-  ELSE [res |-> "rej", site |-> ""]
+  IF ev.st \in {"crash", "throw"} THEN Crash(ev.site, "")
+  ELSE IF ev.st \in {"timeout", "rss"} \/ (ev.st = "ok" /\ (ev.cpu > CpuCapMs \/ ev.hwm > RssCapKiB)) THEN Hog("", "")
+  ELSE IF ev.r = 0 THEN Acc
+  ELSE Rej
 Agrees(p, o) == p.res = o.res /\ (p.res = "crash" => p.site = o.site)
 
 StepInit(ev) ==
   /\ cur' = [Cur0 EXCEPT !.dead = Died(ev)] /\ exec' = exec + 1 /\ drift' = drift
-  /\ fails' = AddFails(StFails(ev, ev.e, ""))
+  /\ fails' = AddFails(StFails(ev, Unk, ""))
   /\ cnt' = [cnt EXCEPT !.records = @ + 1, !.execs = @ + 1, !.st_evals = @ + 1]
 
 StepLoad(ev) ==
@@ -76,11 +81,10 @@ StepLoad(ev) ==
       n == N(I)
       canPredict == HL(I) + Len(I.tail) <= PredMaxLiteral
       pred == IF canPredict THEN Load(I, cur.sel) ELSE Unk
-      md == IF pred.res \in {"crash", "resource"} THEN " model=" \o pred.res \o "@" \o pred.site ELSE ""
+      md == IF pred.why # "" THEN " model=" \o pred.res \o "@" \o pred.site \o "/" \o pred.why ELSE ""
       kind == IF canPredict THEN Kind(I) ELSE "unk"
       obs == Observed(ev)
-      hs == IF pred.res = "resource" THEN pred.site ELSE ev.e
-      f == StFails(ev, hs, md) \cup CostFails(ev, hs, md)
+      f == StFails(ev, pred, md) \cup CostFails(ev, pred, md)
            \cup (IF ev.st = "ok" /\ ~(ev.r \in {0, -1} /\ (ev.r = -1 => ev.errlen > 0))
                  THEN {Fail("result-undefined", ev, ToString(<<ev.r, ev.errlen>>))} ELSE {})
       decided == pred.res # "unk"
@@ -109,10 +113,11 @@ StepSel(ev) ==
   LET reload == cur.loaded /\ cur.kind = "xmi"
       predCrash == reload /\ ev.i < 0 /\ ~Repaired
       md == IF predCrash THEN " model=crash@setSongNum" ELSE ""
+      pred == IF predCrash THEN Crash("setSongNum", "song-index") ELSE Unk
       d == ev.st # "skip" /\ reload /\ (predCrash # (ev.st \in {"crash", "throw"}))
   IN /\ cur' = [cur EXCEPT !.sel = ev.i, !.dead = Died(ev), !.over = Over(ev)]
      /\ exec' = exec
-     /\ fails' = AddFails(StFails(ev, ev.e, md) \cup (IF ev.st = "ok" THEN CostFails(ev, ev.e, md) ELSE {}))
+     /\ fails' = AddFails(StFails(ev, pred, md) \cup (IF ev.st = "ok" THEN CostFails(ev, pred, md) ELSE {}))
      /\ drift' = IF d THEN AddDrift(ev, ToString(<<"model", predCrash, "observed", ev.st>>)) ELSE drift
      /\ cnt' = [cnt EXCEPT !.records = @ + 1, !.follow = @ + B(ev.st = "ok"), !.skipped = @ + B(ev.st = "skip"),
                  !.st_evals = @ + B(ev.st # "skip"), !.time_evals = @ + B(ev.st = "ok"), !.mem_evals = @ + B(ev.st = "ok"),
@@ -121,7 +126,7 @@ StepSel(ev) ==
 
 StepOther(ev) ==
   /\ cur' = [cur EXCEPT !.dead = @ \/ Died(ev), !.over = Over(ev)] /\ exec' = exec /\ drift' = drift
-  /\ fails' = AddFails(StFails(ev, ev.e, "") \cup (IF ev.st = "ok" THEN CostFails(ev, ev.e, "") ELSE {}))
+  /\ fails' = AddFails(StFails(ev, Unk, "") \cup (IF ev.st = "ok" THEN CostFails(ev, Unk, "") ELSE {}))
   /\ cnt' = [cnt EXCEPT !.records = @ + 1, !.follow = @ + B(ev.st = "ok" /\ ev.e # "Done"), !.skipped = @ + B(ev.st = "skip"),
               !.st_evals = @ + B(ev.st # "skip"), !.time_evals = @ + B(ev.st = "ok"), !.mem_evals = @ + B(ev.st = "ok"),
               !.died = @ + B(Died(ev))]
